@@ -149,8 +149,16 @@ def lookups(prog, chk):
                     found = True
             elif m.group(2) not in ("next",):
                 others.append(m.group(2))
-        chk.ob("faithful-exposure", "Message::%s is `%s` over iter_attributes() (first match, no reordering adaptor)" % (fn, adaptor), found and not others,
-               detail="other adaptors: %s" % others, how="callee identity")
+        # the value returned is that search's result on every path (no side door that answers from elsewhere)
+        ret = shape(og.local(0))
+        chain = ret
+        for _ in range(3):
+            if isinstance(chain, tuple) and chain[0] == "call" and re.search(r"::(and_then|ok_or|map|ok_or_else)(::<.*>)?$", chain[1]):
+                chain = chain[2][0]
+        sole = isinstance(chain, tuple) and chain[0] == "call" and re.search(r"MessageAttributesIter.* as std::iter::Iterator>::%s(::<.*>)?$" % adaptor, chain[1]) is not None \
+            and "iter_attributes" in repr(chain[2][0])
+        chk.ob("faithful-exposure", "Message::%s is `%s` over iter_attributes() (first match, no reordering adaptor)" % (fn, adaptor), found and not others and sole,
+               detail="other adaptors: %s; returned value: %s" % (others, repr(ret)[:160]), how="callee identity + origin of the returned value")
     # iter_attributes starts the shared walker at offset 20 over self.data
     b = prog.bodies[MSG + "iter_attributes"]
     og = Origins(prog, b)
